@@ -1525,8 +1525,9 @@ class VacancyMediated(object):
         # 4c. origin state corrections for solute: (corrections for vacancy appear below)
         # these corrections are due to the null space for the vacancy without solute
         if len(self.OSindices) > 0:
-            # need to multiply by sqrt(probV) first
-            OSprobV = self.OSfolddown*probVsqrt  # proper null space projection
+            # need to multiply by the sqrt of the complex probabilities first: the null space of the
+            # symmetrized omega2 is sqrt(prob), which includes the solute-vacancy interaction
+            OSprobV = self.OSfolddown*np.sqrt(prob[self.vstar2kin])  # proper null space projection
             biasSbar = np.dot(OSprobV, biasSvec)
             om2bar = np.dot(OSprobV, np.dot(om2, OSprobV.T))  # OS x OS
             etaSbar = np.dot(pinv(om2bar), biasSbar)
